@@ -20,7 +20,7 @@ RULE = ("(A) after SECS-I blocks were coded in the same process: random E37 head
         "partitions of a 3-frame stream, header-straddling and random cuts; distinct by (stream bytes, partition); "
         "non-trivial when the partition cuts inside a frame or puts several frames in one segment; (C) streams of 1-6 data "
         "frames whose lengths straddle the TCP receiver's read size (1023/1024/1025, multiples of 1024, 64 KiB) written to a "
-        "real loopback socket in one write / per frame / in 1024-byte chunks / at random cuts, with and without pauses")
+        "real loopback socket in one write / per frame / in 1024-byte chunks / at random cuts, with and without pauses; (D) single frames arriving in two segments microseconds apart with nothing after them, under seeded yield injection on the protocol files (hand-over between receiving and framing thread)")
 ASSUMPTIONS = ["lib/wire.py implements the E37 frame layout", "the in-memory connection delivers segments exactly as "
                "TcpConnection's receiver thread would (one on_data call per segment, same thread)",
                "data frames use catalogued header-only functions so that body content is irrelevant to decoding"]
